@@ -222,7 +222,7 @@ def case_lifecycle(kind: int) -> Optional[str]:
 OB2 = "C15.greenback await_ bridges (real trio.run per path)"
 
 
-def greenback_case(depth: int, observe_from: int, with_contexts: bool) -> Optional[str]:
+def greenback_case(depth: int, observe_from: int, with_contexts: bool, nested: bool = False) -> Optional[str]:
     """A Trio task with a greenback portal alternates async -> sync (plain call) -> await_(async) ... `depth`
     times; the innermost level blocks (observe_from 0: another task extracts the task) or extracts the
     task itself (1).  The visible frames must be exactly the levels in order; bridging internals hidden."""
@@ -244,6 +244,14 @@ def greenback_case(depth: int, observe_from: int, with_contexts: bool) -> Option
         box["warnings"] = [str(x.message)[:160] for x in w]
 
     def sync_level(k: int) -> Any:
+        if nested:
+            # the task's synchronous code runs a helper greenlet of its own and calls await_ from inside it
+            import greenlet
+
+            def helper() -> Any:
+                return greenback.await_(async_level(k + 1))
+
+            return greenlet.greenlet(helper).switch()
         return greenback.await_(async_level(k + 1))
 
     async def async_level(k: int) -> Any:
@@ -279,6 +287,13 @@ def greenback_case(depth: int, observe_from: int, with_contexts: bool) -> Option
         return "warning: " + box["warnings"][0]
     vis = [f.funcname for f in st.frames if not f.hide]
     exp = ["greenback_shim", "main", "async_level"] + ["sync_level", "async_level"] * depth
+    if nested and depth > 0:
+        # What is claimed here: the task's own frames come first, up to the sync level that switched into the helper
+        # greenlet; what follows may be nothing (the helper is not followed) or the continuation through the helper.
+        own = ["greenback_shim", "main", "async_level", "sync_level"]
+        if vis[: len(own)] != own:
+            return f"with a helper greenlet inside the task: visible frames {vis} do not start with the task's own frames {own}"
+        return None
     if observe_from == 0:
         exp = exp + ["wait"]
         if vis != exp:
@@ -297,11 +312,12 @@ def _gb_shard(sh: Dict[str, Any]) -> Dict[str, Any]:
         d = e.choice("alternation_depth", sh["maxdepth"] + 1)
         o = e.choice("observe_from", 2)
         wc = e.flag("with_contexts")
-        why = greenback_case(d, o, wc)
+        nested = e.flag("helper_greenlet_inside_the_task") if o == 0 else False
+        why = greenback_case(d, o, wc, nested)
         if len(samples) < 1:
-            samples.append({"greenback_depth": d, "observe_from": o})
+            samples.append({"greenback_depth": d, "observe_from": o, "nested": nested})
         if why and len(cex) < 3:
-            cex.append({"mode": 4, "depth": d, "observe_from": o, "wc": wc, "why": why})
+            cex.append({"mode": 4, "depth": d, "observe_from": o, "wc": wc, "nested": nested, "why": why})
 
     eng = Engine(max_seconds=600)
     eng.explore(harness)
@@ -374,7 +390,7 @@ def run(rep: Any, tier: str, seed: int) -> None:
 
 def replay(c: Dict[str, Any]) -> Dict[str, Any]:
     if c["mode"] == 4:
-        why = greenback_case(c["depth"], c["observe_from"], c["wc"])
+        why = greenback_case(c["depth"], c["observe_from"], c["wc"], bool(c.get("nested")))
     elif c["mode"] == 3:
         why = case_parent_state(c["state"], c["depth"])
     elif c["mode"] == 2:
